@@ -410,9 +410,10 @@ _C13R = ["github.com/obolnetwork/charon/app/k1util.Sign=.vSign", "github.com/obo
 CHECKS["C13"] = {
     "pkg": "./dkg/bcast",
     "parallel": 4,
-    "quick": [{"harness": "VerifC13Bcast", "params": {"r": [1, 2]}, "redirects": _C13R},
+    "quick": [{"harness": "VerifC13Bcast", "params": {"r": [1, 2], "two": 0}, "redirects": _C13R},
+              {"harness": "VerifC13Bcast", "params": {"r": 1, "two": 1}, "redirects": _C13R},
               {"harness": "VerifC13Intf", "params": {}, "redirects": _C13R}],
-    "thorough": [{"harness": "VerifC13Bcast", "params": {"r": [1, 2, 3]}, "redirects": _C13R, "cross": True, "timeout_ms": 300000},
+    "thorough": [{"harness": "VerifC13Bcast", "params": {"r": [1, 2, 3], "two": [0, 1]}, "redirects": _C13R, "cross": True, "timeout_ms": 300000},
                  {"harness": "VerifC13Intf", "params": {}, "redirects": _C13R, "cross": True}],
     "bounds": {
         "quick": "3 members (one faulty sender, two honest); the sender issues r<=2 signature requests to each honest member and to an instance of member 2 running ANOTHER session (message id in {two registered ids, one unregistered}, payload byte symbolic), signs two arbitrary (session, id, payload) tuples itself, then delivers one message to each honest member whose three signatures are picked symbolically from everything it holds (incl. garbage)",
@@ -532,17 +533,20 @@ CHECKS["C19"] = {
     "parallel": 8,
     "replay_tries": 12,
     "quick": [
-        {"harness": "VerifC19Provide", "params": {"np": 2, "nf": [0, 1], "perm": [0, 2], "code": [502, 404], "cancel": 0}, "redirects": _C19R},
-        {"harness": "VerifC19Provide", "params": {"np": 3, "nf": 2, "perm": [0, 3, 5], "code": 503, "cancel": 0}, "redirects": _C19R},
-        {"harness": "VerifC19Provide", "params": {"np": 1, "nf": [2, 3], "perm": [0, 5], "code": 503, "cancel": 0}, "redirects": _C19R},
-        {"harness": "VerifC19Provide", "params": {"np": [1, 2], "nf": [0, 2], "perm": 2, "code": 503, "cancel": 1}, "redirects": _C19R},
+        {"harness": "VerifC19Provide", "params": {"np": 2, "nf": [0, 1], "perm": [0, 2], "code": [502, 404], "cancel": 0, "best": -1}, "redirects": _C19R},
+        {"harness": "VerifC19Provide", "params": {"np": 3, "nf": 2, "perm": [0, 3, 5], "code": 503, "cancel": 0, "best": -1}, "redirects": _C19R},
+        {"harness": "VerifC19Provide", "params": {"np": 1, "nf": [2, 3], "perm": [0, 5], "code": 503, "cancel": 0, "best": -1}, "redirects": _C19R},
+        {"harness": "VerifC19Provide", "params": {"np": [1, 2], "nf": [0, 2], "perm": 2, "code": 503, "cancel": 1, "best": -1}, "redirects": _C19R},
+        # a selector that remembers primary 0 / 1 as the best node of earlier calls
+        {"harness": "VerifC19Provide", "params": {"np": [2, 3], "nf": [0, 1], "perm": [0, 2], "code": 503, "cancel": 0, "best": [0, 1]}, "redirects": _C19R},
     ],
     "thorough": [
-        {"harness": "VerifC19Provide", "params": {"np": [1, 2, 3], "nf": [0, 1, 2, 3], "perm": [0, 1, 2, 3, 4, 5], "code": [502, 503, 504, 404, 500], "cancel": 0}, "redirects": _C19R},
-        {"harness": "VerifC19Provide", "params": {"np": [1, 2, 3], "nf": [0, 1, 2, 3], "perm": [0, 3, 5], "code": 503, "cancel": 1}, "redirects": _C19R},
+        {"harness": "VerifC19Provide", "params": {"np": [1, 2, 3], "nf": [0, 1, 2, 3], "perm": [0, 1, 2, 3, 4, 5], "code": [502, 503, 504, 404, 500], "cancel": 0, "best": -1}, "redirects": _C19R},
+        {"harness": "VerifC19Provide", "params": {"np": [1, 2, 3], "nf": [0, 1, 2, 3], "perm": [0, 3, 5], "code": 503, "cancel": 1, "best": -1}, "redirects": _C19R},
+        {"harness": "VerifC19Provide", "params": {"np": [2, 3], "nf": [0, 1, 2], "perm": [0, 1, 2, 3, 4, 5], "code": [503, 404], "cancel": 0, "best": [0, 1]}, "redirects": _C19R},
     ],
     "bounds": {
-        "quick": "provide-style calls: 1-3 primary and 0-3 fallback nodes; per-node outcome symbolic among success / plain error / timeout-class message / syncing / http gateway status / connection refused / the node's own request deadline (wrapped context.DeadlineExceeded) / hangs for ever (status code concrete per case); selected completion orders; worker count and fail-fast setting taken from the options provide() really passes to forkjoin.New; one scenario with the caller's context cancelled while requests are in flight (must return the context error without blocking); a hung node must not keep the call from returning another node's success (blocking VC on the result loop)",
+        "quick": "provide-style calls: 1-3 primary and 0-3 fallback nodes; per-node outcome symbolic among success / plain error / timeout-class message / syncing / http gateway status / connection refused / the node's own request deadline (wrapped context.DeadlineExceeded) / hangs for ever (status code concrete per case); selected completion orders; worker count and fail-fast setting taken from the options provide() really passes to forkjoin.New; one scenario with the caller's context cancelled while requests are in flight (must return the context error without blocking); a node may also hang ignoring cancellation (the cancel function provide() defers must not wait for it); optionally the call goes through a bestSelector that remembers one primary as the best node of earlier calls; a hung node must not keep the call from returning another node's success (blocking VC on the result loop)",
         "thorough": "1-3 primaries, 0-3 fallbacks, all six completion orders, five status codes",
     },
     "outside": "the concurrency inside forkjoin itself (goroutines, WaitGroup, context trees, unbuffered result channel): replaced by the ideal fork-join described under assumptions, so 'does not wait for hung nodes' is claimed for provide()'s use of forkjoin (worker count, fail-fast option, result loop), not for forkjoin's implementation; slow-but-finite nodes are the completion orders; cancellation at other points than 'while requests are in flight'; submit-style calls (a thin wrapper over provide); the success predicate hook (nil here)",
